@@ -149,6 +149,38 @@ theorem anonymous_aggregate_sources {cat : Cat} {st : St} {tn : List (String × 
   have := ref_spec hres ⟨none, none, none⟩ st (Same.refl st)
   simpa [Agrees, ref] using this
 
+/-! ## wildcards -/
+
+theorem dictGet_self : ∀ (R : Rel), (R.map (·.1)).Nodup → ∀ p ∈ R, dictGet? R p.1 = some p.2
+  | [], _, p, h => by simp at h
+  | a :: r, hn, p, h => by
+    rw [List.map_cons] at hn
+    have hn' := List.nodup_cons.mp hn
+    unfold dictGet?
+    rw [List.find?_cons]
+    rcases List.mem_cons.mp h with e | e
+    · subst e; simp
+    · have hne : (a.1 == p.1) = false := by
+        simp only [beq_eq_false_iff_ne, ne_eq]
+        intro he
+        exact hn'.1 (by rw [he]; exact List.mem_map_of_mem e)
+      simp only [hne]
+      exact dictGet_self r hn'.2 p e
+
+/-- **`x.*`**: for a relation with pairwise distinct column names (none of them `*`) bound to `x`, the expansion gives one output
+column per column of the relation, in order, **each with its own sources** -/
+theorem star_each_own_sources (scope : Scope) (x : String) (R : Rel) (hx : dictGet? scope x = some R) (hn : (R.map (·.1)).Nodup)
+    (hs : ∀ p ∈ R, p.1 ≠ "*") : ∀ (S : Rel) (i : Nat), (∀ p ∈ S, p ∈ R) → curFlow scope (expandRel x S i) = .ok (number S i)
+  | [], i, _ => rfl
+  | p :: r, i, h => by
+    have hp := h p (by simp)
+    have hstar : (p.1 == "*") = false := by simpa using hs p hp
+    have ih := star_each_own_sources scope x R hx hn hs r (i + 1) (fun q hq => h q (by simp [hq]))
+    obtain ⟨n, srcs⟩ := p
+    simp only [expandRel, List.zipIdx_cons, List.map_cons] at ih ⊢
+    simp only [curFlow, refs, ref, hstar, Bool.false_eq_true, if_false, refQ, hx, dictGet_self R hn (n, srcs) hp, bind, Except.bind,
+      pure, Except.pure, List.append_nil, ih, number]
+
 /-! ## instances -/
 
 def selU (cols : List (Expr × Option String)) (fr : List FromTable) : Select :=
@@ -185,5 +217,33 @@ def countOne : Query :=
 theorem countOne_spec : specOk countOne [("n", [(none, "t", none), (none, "u", none)]), ("s", [(none, "t", some "a")])] = true := by decide +kernel
 example : hyg countOne = true := by decide +kernel
 example : isOk [("n", 1, [(none, "t", none), (none, "u", none)]), ("s", 2, [(none, "t", some "a")])] (run2 countOne) = true := by decide +kernel
+
+/-- `SELECT q.*, t.c FROM t JOIN (SELECT a + b AS k, a FROM t) q ON t.a = q.a`: the derived table's columns with their own sources -/
+def starQ : Query :=
+  .single (selJ [(.wildcard (some "q"), none), (.column (some "t") "c", none)] [tbl "t"]
+    [joinOn (der (.single (selJ [(.compute (.column none "a") "PLUS" (.column none "b"), some "k"), (.column none "a", none)] [tbl "t"] [])) "q")
+      (.column (some "t") "a") (.column (some "q") "a")])
+theorem starQ_spec : specOk starQ [("k", [(none, "t", some "a"), (none, "t", some "b")]), ("a", [(none, "t", some "a")]), ("c", [(none, "t", some "c")])] = true := by
+  decide +kernel
+example : hyg starQ = true := by decide +kernel
+example : isOk [("k", 1, [(none, "t", some "a"), (none, "t", some "b")]), ("a", 2, [(none, "t", some "a")]), ("c", 3, [(none, "t", some "c")])] (run2 starQ) = true := by
+  decide +kernel
+
+/-- `SELECT * FROM t1, t2`: the columns of every item, item after item -/
+def starAll : Query := .single (selJ [(.wildcard none, none)] [tbl "t1", tbl "t2"] [])
+theorem starAll_spec : specOk starAll [("a", [(none, "t1", some "a")]), ("b", [(none, "t1", some "b")]), ("c", [(none, "t2", some "c")]),
+    ("x", [(none, "t2", some "x")]), ("d", [(none, "t2", some "d")])] = true := by decide +kernel
+example : isOk [("a", 1, [(none, "t1", some "a")]), ("b", 2, [(none, "t1", some "b")]), ("c", 3, [(none, "t2", some "c")]),
+    ("x", 4, [(none, "t2", some "x")]), ("d", 5, [(none, "t2", some "d")])] (run2 starAll) = true := by decide +kernel
+
+/-- an unknown `z.*` is the analysis error -/
+example : specErr (.single (selJ [(.wildcard (some "z"), none)] [tbl "t1"] [])) = true := by decide +kernel
+example : isErr .analyzer (run2 (.single (selJ [(.wildcard (some "z"), none)] [tbl "t1"] []))) = true := by decide +kernel
+
+/-- the excluded case (F-C16-6, `C16.witness_6`): `SELECT x.* FROM t x` — an aliased base table: outside the specification
+(`plainKey` fails), and the analysis refuses a valid query -/
+example : (match flowQ cat2 8 [] (.single (selJ [(.wildcard (some "x"), none)] [tbl "t" (some "x")] [])) with | .error .outside => true | _ => false) = true := by
+  decide +kernel
+example : isErr .analyzer (run2 (.single (selJ [(.wildcard (some "x"), none)] [tbl "t" (some "x")] []))) = true := by decide +kernel
 
 end C16
